@@ -570,15 +570,17 @@ func (d *dealer) syncRegister(callee *wamp.Session, msg *wamp.Register, match, i
 
 func (d *dealer) syncUnregister(callee *wamp.Session, msg *wamp.Unregister) []*wamp.Publish {
 	var metaPubs []*wamp.Publish
-	// Delete the registration ID from the callee's set of registrations.
-	if _, ok := d.calleeRegIDSet[callee]; ok {
+	// Only a session that is a callee of the registration can unregister it.
+	var delReg bool
+	err := fmt.Errorf("session %v is not a callee of registration %v", callee, msg.Registration)
+	if _, ok := d.calleeRegIDSet[callee][msg.Registration]; ok {
+		// Delete the registration ID from the callee's set of registrations.
 		delete(d.calleeRegIDSet[callee], msg.Registration)
 		if len(d.calleeRegIDSet[callee]) == 0 {
 			delete(d.calleeRegIDSet, callee)
 		}
+		delReg, err = d.syncDelCalleeReg(callee, msg.Registration)
 	}
-
-	delReg, err := d.syncDelCalleeReg(callee, msg.Registration)
 	if err != nil {
 		d.log.Println("Cannot unregister:", err)
 		d.trySend(callee, &wamp.Error{
